@@ -22,6 +22,39 @@ lits = {"Bytes": " bytes", "TopicColon": "topic:", "Malformed": ", malformed! ",
         "NoFiltersBang": "no filters!"}
 
 
+# Dump (as built): per packet type the lines "Label: value" in the order the library prints them; f = how the value is
+# formatted: v = %v, q = %q of a string, qb = %q of string(bytes), sq / sv = the mask for a credential (%q / %v)
+DUMP = {
+ 1: [("AuthData", "AuthData", "v"), ("AuthMethod", "AuthMethod", "v"), ("CleanStart", "CleanStart", "v"), ("ClientID", "ClientID", "v"),
+     ("KeepAlive", "KeepAlive", "v"), ("MaxPacketSize", "MaxPacketSize", "v"), ("Password", "Password", "sq"),
+     ("ProtocolName", "ProtocolName", "v"), ("ProtocolVersion", "ProtocolVersion", "v"), ("ReceiveMax", "ReceiveMax", "v"),
+     ("RequestProblemInfo", "RequestProblemInfo", "v"), ("RequestResponseInfo", "RequestResponseInfo", "v"),
+     ("SessionExpiryInterval", "SessionExpiryInterval", "v"), ("TopicAliasMax", "TopicAliasMax", "v"), ("Username", "Username", "sv")],
+ 2: [("AssignedClientID", "AssignedClientID", "q"), ("AuthData", "AuthData", "qb"), ("AuthMethod", "AuthMethod", "q"),
+     ("MaxPacketSize", "MaxPacketSize", "v"), ("MaxQoS", "MaxQoS", "v"), ("ReasonCode", "ReasonCode", "v"), ("ReasonString", "ReasonString", "q"),
+     ("ReceiveMax", "ReceiveMax", "v"), ("ResponseInformation", "ResponseInformation", "q"), ("RetainAvailable", "RetainAvailable", "v"),
+     ("ServerKeepAlive", "ServerKeepAlive", "v"), ("ServerReference", "ServerReference", "q"),
+     ("SessionExpiryInterval", "SessionExpiryInterval", "v"), ("SessionPresent", "SessionPresent", "v"),
+     ("SharedSubAvailable", "SharedSubAvailable", "v"), ("SubIdentifiersAvailable", "SubIdentifiersAvailable", "v"),
+     ("TopicAliasMax", "TopicAliasMax", "v"), ("WildcardSubAvailable", "WildcardSubAvailable", "v")],
+ 3: [("ContentType", "ContentType", "v"), ("CorrelationData", "CorrelationData", "v"), ("Duplicate", "Duplicate", "v"),
+     ("MessageExpiryInterval", "MessageExpiryInterval", "v"), ("PacketID", "PacketID", "v"), ("Payload", "Payload", "v"),
+     ("PayloadFormat", "PayloadFormat", "v"), ("QoS", "QoS", "v"), ("ResponseTopic", "ResponseTopic", "v"), ("Retain", "Retain", "v"),
+     ("SubscriptionIDs", "SubscriptionIDs", "v"), ("TopicAlias", "TopicAlias", "v"), ("TopicName", "TopicName", "v")],
+ 4: [("PacketID", "PacketID", "v"), ("ReasonString", "ReasonString", "v"), ("ReasonCode", "ReasonCode", "v")],
+ 5: [("PacketID", "PacketID", "v"), ("Reason", "ReasonString", "v"), ("ReasonCode", "ReasonCode", "v")],
+ 6: [("PacketID", "PacketID", "v"), ("ReasonString", "ReasonString", "v"), ("ReasonCode", "ReasonCode", "v")],
+ 7: [("PacketID", "PacketID", "v"), ("Reason", "ReasonString", "v"), ("ReasonCode", "ReasonCode", "v")],
+ 8: [("PacketID", "PacketID", "v")],
+ 9: [("PacketID", "PacketID", "v"), ("ReasonString", "ReasonString", "v"), ("ReasonCodes", "ReasonCodes", "v")],
+ 10: [("PacketID", "PacketID", "v")],
+ 11: [("PacketID", "PacketID", "v"), ("ReasonString", "ReasonString", "v"), ("ReasonCodes", "ReasonCodes", "v")],
+ 14: [("ReasonCode", "ReasonCode", "v"), ("ReasonString", "ReasonString", "q"), ("ServerReference", "ServerReference", "q"),
+      ("SessionExpiryInterval", "SessionExpiryInterval", "v")],
+ 15: [("AuthData", "AuthData", "qb"), ("AuthMethod", "AuthMethod", "q"), ("ReasonCode", "ReasonCode", "v"), ("ReasonString", "ReasonString", "q")],
+}
+
+
 def tup(s):
     return "<<" + ", ".join(str(b) for b in s.encode()) + ">>"
 
@@ -31,6 +64,11 @@ out = ["----------------------------- MODULE MQLibText -------------------------
        "TypeText(t) == CASE " + "\n             [] ".join("t = %d -> %s" % (i, tup(n)) for i, n in enumerate(types)),
        "KnownReasons == {" + ", ".join(str(k) for k in sorted(reasons)) + "}",
        "ReasonText(c) == CASE " + "\n               [] ".join("c = %d -> %s" % (k, tup(v)) for k, v in sorted(reasons.items()))]
+out.append("DumpSpec(t) == CASE " + "\n              [] ".join(
+    "t = %d -> <<%s>>" % (t, ", ".join('[label |-> %s, key |-> "%s", f |-> "%s"]' % (tup(l), k, f) for l, k, f in rows))
+    for t, rows in sorted(DUMP.items())) + "\n              [] OTHER -> <<>>")
+lits.update({"Stars": "*********", "Will": "Will", "Filters": "Filters", "UserProperties": "UserProperties", "SubscriptionID": "SubscriptionID",
+             "True": "true", "False": "false"})
 for k, v in lits.items():
     out.append("Txt%s == %s" % (k, tup(v)))
 out.append("=============================================================================")
